@@ -130,6 +130,20 @@ Definition break_in_2 (o : nat) (p : list nat) : fcirc :=
 Definition decompose_perms (fc : fcirc) : fcirc :=
   flat_map (fun ol => match ol with (o, LPERM p) => break_in_2 o p | _ => [ol] end) fc.
 
+(* decompose_perms(circuit, merge) as a tree: the result is a NEW circuit on the same modes whose entries are the
+   leaves of the operand in circuit order, every PERM on more than two modes replaced by its swap network --
+   merged into the list (merge = true) or nested as one sub-circuit (merge = false).  The network is built afresh
+   at every call: the result shares no composite with any other circuit. *)
+Definition tdecompose (merge : bool) (t : tcomp) : tcomp :=
+  TSub (tw t)
+    (flat_map (fun ol => match ol with
+       | (o, LPERM p) =>
+           if (length p =? 2)%nat then [(o, TLeaf (LPERM p))]
+           else if merge then map (fun k => ((o + k)%nat, TLeaf swap_leaf)) (bubble_swaps p)
+           else [(o, TSub (length p) (map (fun k => (k, TLeaf swap_leaf)) (bubble_swaps p)))]
+       | (o, l) => [(o, TLeaf l)]
+       end) (tflatten 0 t)).
+
 (* ---------------------------------------------------------------- experiment._flatten *)
 Definition dgo (d : option nat) : bool := match d with None => true | Some k => (0 <? k)%nat end.
 Definition ddec (d : option nat) : option nat := match d with None => None | Some k => Some (k - 1)%nat end.
@@ -175,7 +189,7 @@ Arguments TLeaf {_}. Arguments TSub {_}. Arguments tw {_}. Arguments denote {_}.
 Arguments is_sub {_}. Arguments tinv {_}. Arguments circuit_inverse {_}.
 Arguments fmats {_}. Arguments fmat {_}. Arguments fmatx {_}. Arguments tflatten {_}.
 Arguments swap_leaf {_}. Arguments break_in_2 {_}. Arguments decompose_perms {_}.
-Arguments flat1 {_}. Arguments exp_flatten {_}. Arguments emats {_}. Arguments emat {_}. Arguments ematx {_}.
+Arguments tdecompose {_}. Arguments flat1 {_}. Arguments exp_flatten {_}. Arguments emats {_}. Arguments emat {_}. Arguments ematx {_}.
 Arguments run_min {_}. Arguments run_max {_}. Arguments submat {_}. Arguments regroup_run {_}.
 Arguments circuit_inverse_now {_}. Arguments circuit_inverse_old {_}. Arguments bs_inverse_now {_}. Arguments bs_inverse_old {_}.
 Arguments exp_flatten_now {_}. Arguments exp_flatten_old {_}.
